@@ -10,6 +10,7 @@
 //!   fmt <width> <hexsrc>        real parse + `pretty_print_source_module`
 //!                               -> ok <hex formatted> <comments in store> | err <n> <hex first msg> | panic <hex>
 //!   fmtdoc <width> <hexsrc>     real Document of the module (hook H4b) + real output -> ok <hex> <doc>
+//!   imports <hexsrc>           parsed import lines + real Document -> ok only|more <imports> | <doc>
 //!   tok <hexsrc>                real token producer (hook H6) -> kind:l0:c0:l1:c1:hex,...
 use samlang_errors::ErrorSet;
 use samlang_heap::{Heap, ModuleReference};
@@ -57,6 +58,54 @@ fn fmtdoc(width: usize, src: &str) -> String {
   let doc = samlang_printer::verif_hooks::module_doc(&heap, &module);
   let out = samlang_printer::pretty_print_source_module(&heap, width, &module);
   format!("ok {} {doc}", hex(out.as_bytes()))
+}
+
+/// The parsed import lines (path; comments; members) and the real Document of the module
+/// (hook H4b): `ok <path>;<kind=hex,..|->;<hexmember,..|->/... | <doc>`.
+fn imports(src: &str) -> String {
+  use samlang_ast::source::CommentKind;
+  let mut heap = Heap::new();
+  let mut error_set = ErrorSet::new();
+  let mr = heap.alloc_module_reference_from_string_vec(vec!["Test".to_string()]);
+  let module = samlang_parser::parse_source_module_from_text(src, mr, &mut heap, &mut error_set);
+  if error_set.has_errors() {
+    return format!("err {}", error_set.errors().len());
+  }
+  let mut parts = Vec::new();
+  for import in &module.imports {
+    let comments: Vec<String> = module
+      .comment_store
+      .get(import.associated_comments)
+      .iter()
+      .map(|c| {
+        let k = match c.kind {
+          CommentKind::LINE => "line",
+          CommentKind::BLOCK => "block",
+          CommentKind::DOC => "doc",
+        };
+        format!("{k}={}", hex(c.text.as_str(&heap).as_bytes()))
+      })
+      .collect();
+    let members: Vec<String> =
+      import.imported_members.iter().map(|m| hex(m.name.as_str(&heap).as_bytes())).collect();
+    parts.push(format!(
+      "{};{};{}",
+      hex(import.imported_module.pretty_print(&heap).as_bytes()),
+      if comments.is_empty() { "-".to_string() } else { comments.join(",") },
+      if members.is_empty() { "-".to_string() } else { members.join(",") }
+    ));
+  }
+  let doc = samlang_printer::verif_hooks::module_doc(&heap, &module);
+  let shape = if module.toplevels.is_empty()
+    && matches!(
+      module.comment_store.get(module.trailing_comments),
+      samlang_ast::source::CommentsNode::NoComment
+    ) {
+    "only"
+  } else {
+    "more"
+  };
+  format!("ok {shape} {} | {doc}", if parts.is_empty() { "-".to_string() } else { parts.join("/") })
 }
 
 fn main() {
@@ -121,6 +170,7 @@ fn main() {
           let (w, src) = rest.split_once(' ').unwrap();
           fmtdoc(w.parse().unwrap(), &unhex_str(src))
         }
+        "imports" => imports(&unhex_str(rest)),
         "tok" => {
           let src = unhex_str(rest);
           let mut heap = Heap::new();
